@@ -310,4 +310,11 @@ def run_mi(case, ctx):
 
 
 def run_case(case, ctx):
-    {"oniom": run_oniom, "link": run_link, "dmet": run_dmet, "mi": run_mi}[case["sub"]](case, ctx)
+    try:
+        {"oniom": run_oniom, "link": run_link, "dmet": run_dmet, "mi": run_mi}[case["sub"]](case, ctx)
+    except ValueError as e:
+        # a refusal, not a result: Tangelo raises when the mean-field calculation of a (random, stretched) geometry does not converge
+        if "did not converge" in str(e):
+            ctx.note("scf_not_converged_refused")
+            return
+        raise
